@@ -12,6 +12,7 @@ pub mod h_swar;
 pub mod h_float_tok;
 pub mod h_special;
 pub mod h_bound;
+pub mod h_round;
 pub mod h_options;
 pub mod h_special_write;
 #[cfg(any(feature = "compact", feature = "radix"))]
@@ -40,6 +41,8 @@ pub fn all_harnesses() -> Vec<Harness> {
     let mut v: Vec<Harness> = Vec::new();
     v.extend_from_slice(h_int_write::HARNESSES);
     v.extend_from_slice(h_int_parse::HARNESSES);
+    #[cfg(feature = "power-of-two")]
+    v.extend_from_slice(h_int_parse::pow2::HARNESSES);
     v.extend_from_slice(h_util::HARNESSES);
     v.extend_from_slice(h_format::HARNESSES);
     #[cfg(feature = "format")]
@@ -48,6 +51,7 @@ pub fn all_harnesses() -> Vec<Harness> {
     v.extend_from_slice(h_float_tok::HARNESSES);
     v.extend_from_slice(h_special::HARNESSES);
     v.extend_from_slice(h_bound::HARNESSES);
+    v.extend_from_slice(h_round::HARNESSES);
     v.extend_from_slice(h_options::HARNESSES);
     #[cfg(not(feature = "compact"))]
     v.extend_from_slice(h_bound::emit::HARNESSES);
@@ -62,11 +66,15 @@ pub fn all_harnesses() -> Vec<Harness> {
     v.extend_from_slice(h_float_wbin::HARNESSES);
     #[cfg(not(feature = "compact"))]
     v.extend_from_slice(h_dragonbox::HARNESSES);
+    #[cfg(not(feature = "compact"))]
+    v.extend_from_slice(h_dragonbox::rt::HARNESSES);
     #[cfg(feature = "format")]
     v.extend_from_slice(h_sep::HARNESSES);
     v.extend_from_slice(h_facade::HARNESSES);
     #[cfg(not(feature = "compact"))]
     v.extend_from_slice(h_float_emit::HARNESSES);
+    #[cfg(all(not(feature = "compact"), feature = "format"))]
+    v.extend_from_slice(h_float_emit::fmt::HARNESSES);
     #[cfg(feature = "format")]
     v.extend_from_slice(h_special::fmt::HARNESSES);
     #[cfg(not(feature = "compact"))]
